@@ -81,6 +81,36 @@ func checkC05(c *Ctx) {
 			c.note(fmt.Sprintf("armsweep:%d", n), true)
 		}
 	}
+	// (a0') armored files to 1..8 X25519 recipients and to one RSA recipient of each size: header + nonce end at
+	// every offset within an armor line / base64 group when the first chunk arrives
+	{
+		var lists [][]*party
+		for nr := 1; nr <= 8; nr++ {
+			var l []*party
+			for k := 0; k < nr; k++ {
+				l = append(l, c.freshParty("x25519"))
+			}
+			lists = append(lists, l)
+		}
+		lists = append(lists, []*party{sshRSAParty(c.model, 0)}, []*party{sshRSAParty(c.model, 3)}, []*party{c.freshParty("ssh-ed25519")}, []*party{c.freshParty("scrypt")})
+		for li, l := range lists {
+			for _, n := range []int{0, 31, 32, 33, 100} {
+				if !c.thorough() && (li+n)%2 == 1 {
+					continue
+				}
+				sc := &scenario{parties: l, plain: c.rng.bytes(n), tape: c.rng.bytes(700), armor: true}
+				file, err, _, _ := encryptImpl(sc)
+				in := map[string]interface{}{"recipients": sc.describe()["recipients"], "plaintext_size": n, "armor": true}
+				c.Compare("age.Encrypt+armor~Age.encrypt_bytes+Armor.armor_bytes", in, implFileSx(file, err), c.encryptModel(sc))
+				if err == nil {
+					_, out, oc := decryptImpl(bytes.NewReader(file), true, []age.Identity{l[len(l)-1].id})
+					c.Oracle("written-file-decrypts-to-its-plaintext", bytes.Equal(out, sc.plain) && oc == ":eof", "written-file-unreadable", in, "an armored file the implementation wrote does not decrypt to its plaintext (outcome "+oc+")")
+				}
+				c.count("armored-recipient-sweep")
+				c.note(fmt.Sprintf("armrcpt:%d:%d", li, n), true)
+			}
+		}
+	}
 	// (a1) the plaintext arriving through io.Copy from a plain io.Reader (what cmd/age does): the writer may
 	// take the ReaderFrom path; sizes around multiples of the chunk size
 	for _, n := range []int{0, 1, chunkSize - 1, chunkSize, chunkSize + 1, 2 * chunkSize} {
@@ -154,6 +184,22 @@ func checkC05(c *Ctx) {
 		h := sha256.Sum256(out)
 		c.Oracle("frozen-file-still-decrypts", oc == ":eof" && hx(h[:]) == e.PlainSHA && len(out) == e.PlainLen, "corpus-regression", e,
 			fmt.Sprintf("frozen corpus file %s no longer decrypts to its recorded plaintext (outcome %s)", e.File, oc))
+		// the same file read with ONE big buffer (a caller using a large bufio.Reader / io.CopyBuffer)
+		if r, derr := age.Decrypt(readerFor(file, e.Armored), p.id); derr == nil {
+			big := make([]byte, 1<<20)
+			var got []byte
+			var rerr error
+			for k := 0; k < 100000; k++ {
+				n, e2 := r.Read(big)
+				got = append(got, big[:n]...)
+				if e2 != nil {
+					rerr = e2
+					break
+				}
+			}
+			hb := sha256.Sum256(got)
+			c.Oracle("frozen-file-still-decrypts", rerr == io.EOF && hx(hb[:]) == e.PlainSHA, "corpus-regression-big-buffer", e, fmt.Sprintf("frozen corpus file %s read with a 1 MiB buffer: %d bytes, err %v", e.File, len(got), rerr))
+		}
 		if e.PlainLen <= chunkSize+1 || c.thorough() {
 			model := c.decryptModel(file, e.Armored, []string{p.isx})
 			c.Compare("age.Decrypt(corpus)~Age.decrypt", e, impl, model)
